@@ -34,7 +34,7 @@ def main():
     if a.no_build:
         ctx.build = core.Build()
     else:
-        ctx.build = core.build_and_audit(pid, getattr(mod, "GENERATORS", ()), getattr(mod, "EXTRA_TARGETS", ()))
+        ctx.build = core.build_and_audit(pid, getattr(mod, "GENERATORS", ()), getattr(mod, "EXTRA_TARGETS", ()), getattr(mod, "GENERATORS2", ()))
     if a.tier == "thorough" and ctx.build.ok and not a.no_build:
         core.leanchecker(ctx, pid)
     if a.replay:
